@@ -139,6 +139,22 @@ func caseC05(c *Ctx) {
 		}
 	}
 	errVariant := c.Draw(5)
+	if len(branch) == 4 && strings.Join(branch, "") == strings.Join(branchSets[5], "") && c.Chance(1, 2) {
+		// an earlier walk of another tree in this process, with branch strings that are cut
+		// differently but read the same when written one after the other
+		for _, i := range []int{5, 7, 8} {
+			if tw := branchSets[i]; strings.Join(tw, "\x00") != strings.Join(branch, "\x00") {
+				other := gtree.NewRoot("earlier")
+				other.Add("x").Add("y")
+				other.Add("z")
+				gtree.WalkFromRoot(other, func(*gtree.WalkerNode) error { return nil },
+					gtree.WithBranchFormatLastNode(tw[0], tw[1]), gtree.WithBranchFormatIntermedialNode(tw[2], tw[3]))
+				c.Scenario["earlier_walk_with_branch_strings"] = tw
+				c.st.Count("earlier-walk-with-twin-branch-strings")
+				break
+			}
+		}
+	}
 	c05Check(c, form, forest, branch, op, doc, levelJump, errVariant, true)
 }
 
@@ -254,7 +270,9 @@ func c05Check(c *Ctx, form string, forest []*MNode, branch []string, op Op, doc 
 	for _, k := range ks {
 		out := run(k)
 		fail := func(sig, f string, a ...any) {
-			c.SetParam("k", k)
+			if shared == nil {
+				c.SetParam("k", k) // (on one shared tree object the walks are a sequence: a replay repeats all of them)
+			}
 			c.Scenario["stop_at"] = k
 			c.Failf(sig, f, a...)
 		}
